@@ -610,14 +610,20 @@ func xbCall(f func() string) (res string) {
 	return f()
 }
 
+// xbErr turns an error into a symbolic result by IDENTITY (the package's own error values, which vmm passes
+// through unchanged); diagnostic wording never decides anything.
 func xbErr(err *kernel.Error) string {
-	if err == nil {
+	switch err {
+	case nil:
 		return "ok"
-	}
-	if err.Message == "out of memory" {
+	case errBootAllocOutOfMemory, errBitmapAllocOutOfMemory:
 		return "oom"
+	case errBitmapAllocFrameNotManaged:
+		return "notmanaged"
+	case errBitmapAllocDoubleFree:
+		return "doublefree"
 	}
-	return "err:" + err.Message
+	return "other"
 }
 
 type xbDriver struct {
@@ -664,7 +670,7 @@ func (d *xbDriver) freeFrame(f mm.Frame) string {
 	e := xbEv{"k": "free", "f": int(f)}
 	res := xbCall(func() string {
 		if err := bitmapAllocator.FreeFrame(f); err != nil {
-			return err.Message
+			return xbErr(err)
 		}
 		return "ok"
 	})
@@ -709,7 +715,7 @@ func (d *xbDriver) freeAll() string {
 			f := d.takeHeld(d.m.rng.Intn(len(d.held)))
 			fs = append(fs, int(f))
 			if err := bitmapAllocator.FreeFrame(f); err != nil {
-				return err.Message
+				return xbErr(err)
 			}
 		}
 		return "ok"
